@@ -201,6 +201,10 @@ class Ledger:
             site.why = "ledger entry `%s` no longer verifies: %s" % (e.get("tactic"), why)
         return False
 
+    def db_variants(self, site):
+        e = self.db.get(site.key) or {}
+        return e.get("variants", [])
+
     def _renamed_entry(self, site):
         """a ledger entry for the same function and kind whose description equals this site's up to the names of locals
         (a renamed local or parameter must not orphan a reviewed entry); only entries no current site matches exactly"""
@@ -239,6 +243,17 @@ class Ledger:
 
     # ---- ledger tactics that are re-verified on every run
     def verify_entry(self, site, e):
+        if e.get("variants"):
+            # the reason speaks about a value of a particular variant (`a Lit(Str) token`): the site must sit on the edge that
+            # a dominating match on that enum takes for that variant
+            cons = self._dom_constraints(site.fn, site.bb, stable=False)
+            for adt, var in e["variants"]:
+                want = [v.get("discr", v["idx"]) for v in self.prog.adts.get(adt, {}).get("variants", []) if v["name"] == var]
+                if not want or not any(c[0] == "discr" and c[2] == adt and v == want[0] for c, v in cons):
+                    return False, "the site is not dominated by a match arm for %s::%s" % (short(adt), var)
+            e = {k: v for k, v in e.items() if k != "variants"}
+            ok, why = self.verify_entry(site, e)
+            return ok, (why + "; " if why else "") + "inside the arm(s) " + ", ".join("%s::%s" % (short(a), v) for a, v in [tuple(x) for x in self.db_variants(site)]) if ok else why
         tac = e.get("tactic", "reviewed")
         if tac in ("reviewed", "assumption"):
             return True, ""
